@@ -6,6 +6,17 @@ LATE = {
  "C01-C": "rescaled and near-unit lattice points (every direction at several lengths within 1e-3 of 1)",
  "C02-D": "purity histories: expected values first, then an uninterrupted call sequence on one buffer mutated in place",
  "C05-D": "pairings outermost, one shared bit-identical state evaluated first and last on every joint",
+ "C05-G": "unit changes: the mechanism is built a second time with every length multiplied by 2^-30 (exact in binary floating point) and every routine compared with the scaled first one; the powers are the kernel's (`Homogeneous` in JointKernel.tla)",
+ "C06-G": "a companion contact of the same class on the same body against another plane / sphere is kept alive and asked for everything right before every record",
+ "C06-H": "decoy attributes: bodies carry geometry of their own (`radius`, as the meshed shapes do)",
+ "C08-G": "a sibling interaction between the same subsystems is asked at the same (t, q, u) right before every record",
+ "C08-H": "the element is asked at the same (q, u) at two other times before every record (Revolute with a rotating frame as partner)",
+ "C10-H": "tiny strains: states 1e-5 .. 1e-8 away from the reference; forces proportional to the displacement, invariant under translations, energy objective (relative comparisons)",
+ "C14-H": "all stub quantities are integers times a power of two chosen per behaviour (2^-60, 1, 2^40): the same model in other units",
+ "C16-G": "dedicated systems: a heavy frictionless and a light frictional sliding ball on an oblique plane, added in both orders; ball masses vary in the random systems",
+ "C16-H": "dedicated systems: a three-legged stool whose contact fixed point needs ~190 sweeps, with budgets below and above, with and without `continue_with_unconverged`",
+ "C29-G": "a literal file name `custom1` next to a repeated `custom`",
+ "C29-H": "a third rod with the degree and the frame count of the first one on a finer mesh (explicit `ncells`)",
  "C03-E": "in-place histories in C03: every rotation-vector routine is called on one buffer that is overwritten between calls (and on a view that is scaled in place) and must return exactly what it returns for a fresh array",
  "C03-F": "the quaternion tangent maps' derivatives with `normalize=False` (QuatKernel.tla `dTun`, `dTi`); the kernel's large-ratio points are replayed under C03 too",
  "C07-E": "consecutive records of one element at the same configuration with other velocities (lattice records) and `la_c(q, -u)` right after `la_c(q, u)` on Revolute joints",
